@@ -15,10 +15,11 @@ def _stats(vals):
     return mean, var, math.sqrt(var)
 
 
-def _drive(k, values):
-    """Returns list of (mean, var, std, get, window or None) after each update, or raises."""
+def _drive(k, values, kconv=int, keyword=False):
+    """Returns list of (mean, var, std, get, window or None) after each update, or raises.
+    kconv: the type the window length is given in; keyword: SlidingWindowTracker(k=...)"""
     from ixai.utils.tracker import SlidingWindowTracker
-    t = SlidingWindowTracker(k)
+    t = SlidingWindowTracker(k=kconv(k)) if keyword else SlidingWindowTracker(kconv(k))
     out = []
     for v in values:
         r = t.update(v)
@@ -68,7 +69,9 @@ def run(tier, seed):
             vals = [f(i) for i in range(1, nmax + 1)]
             key = "k=%d values=%s n<=%d" % (k, name, nmax)
             try:
-                obs = _drive(k, vals)
+                import numpy as np
+                kconv = {"int": int, "float": np.int64, "big": np.int8, "tiny": np.uint8, "huge": np.int32}[name]
+                obs = _drive(k, vals, kconv, keyword=(name in ("float", "tiny")))
             except Exception as e:
                 ctx.violation("replay.sw.usable", "k=%d" % k, "SlidingWindowTracker(%d) cannot be constructed/used "
                               "on this NumPy: %s: %s" % (k, type(e).__name__, e), {"k": k, "values": vals})
